@@ -1,9 +1,54 @@
 (** * Inv_flatten: the master invariant of flatten (switch semantics), over every
       reachable configuration, and the theorems C01-C05/C17 (safety), C11
-      (only the latest inner speaks; completion) and the order of relayed data. *)
+      (only the latest inner speaks; completion) and the order of relayed data.
+
+    Regime: [nsinks p = 1], [resub p = false], [no_nest p = false],
+    [c14 p = false], [late_ok p = false] (every source, outer and inner,
+    greets inside its subscribing call); guard [g_flatten] (an inner source
+    the outer emits is fresh).  [pullable], [one_pull] are arbitrary.  The
+    number of inner sources and the depth of re-entrancy are unbounded.
+
+    The invariant [Inv] is a few global facts plus a phase [Ph]:
+    - [PhInit]   nothing happened yet;
+    - [PhSub0]   the sink's subscription is subscribing the outer (only the
+                 outer's greeting is enabled);
+    - [PhLive]   the sink is live; every suspended activation is [FlDone];
+                 [fl_outer = true] iff the outer is live, otherwise it ended
+                 and an inner is stored; a stored inner is live;
+    - [PhOver]   the sink is disposed/finished, no upstream is live or
+                 half-subscribed, only returns are enabled (the cells are not
+                 cleared: [fl_inner = Some j] with [us j = UStopped/UEnded]);
+    - [PhSwitch] top activation [(FlSubInner k, CUp j UT)]: the old inner has
+                 just been stopped, port [S k] is still [UNone], and nothing
+                 but the return is enabled (so nobody can subscribe [S k] in
+                 between: freshness survives from the outer's Data input);
+    - [PhSubI]   top activation [(FlDone, CSub (S k))], [S k] has not greeted:
+                 only its greeting is enabled ([fl_inner] may still hold the
+                 stopped old inner);
+    - [PhErr]    top activation [(FlThenErr e, CUp j UT)]: a level failed, the
+                 other one has just been stopped, the Error is due;
+    - [PhDisp]   top activation [(FlThenOuter, CUp j UT)]: the sink disposed,
+                 the inner has just been stopped, the outer is next.
+    In the last four phases and in [PhOver] the environment has exactly one
+    enabled move, which makes the transient states harmless. *)
 From CB Require Import ProofLib Spec.
 
 Set Implicit Arguments.
+
+(** payloads sent by the inner sources (every port but 0), in arrival order *)
+Fixpoint inner_data (tr : list event) : list val :=
+  match tr with
+  | [] => []
+  | EIn (IDn (S _) (DD v)) :: tr' => v :: inner_data tr'
+  | _ :: tr' => inner_data tr'
+  end.
+
+Lemma inner_data_app tr1 tr2 : inner_data (tr1 ++ tr2) = inner_data tr1 ++ inner_data tr2.
+Proof.
+  induction tr1 as [|e tr1 IH]; cbn; [reflexivity|].
+  destruct e as [[s a|s u|[|j] [|v|e|]|s]|c| | |ob|]; cbn; try exact IH.
+  now rewrite IH.
+Qed.
 
 Section FlattenInv.
   Variable p : mparams.
@@ -218,21 +263,22 @@ Section FlattenInv.
   Ltac usolve :=
     intros; unfold upd in *;
     repeat match goal with
-           | H : forall i, us ?m (S i) = ULive -> i = _, H' : us ?m (S _) = ULive |- _ =>
-               apply H in H'; try subst
-           | H : context [Nat.eqb ?a ?b] |- _ => destruct (Nat.eqb_spec a b); try discriminate; subst
+           | H : forall i, us ?m (S i) = ULive -> i = ?k, H' : us ?m (S ?i) = ULive |- _ =>
+               tryif constr_eq i k then fail else (pose proof (H _ H'); subst i)
+           | H : context [Nat.eqb ?a ?b] |- _ =>
+               revert H; destruct (Nat.eqb_spec a b); intro H; try discriminate; subst
            | |- context [Nat.eqb ?a ?b] => destruct (Nat.eqb_spec a b); try discriminate; subst
            end;
     auto; try congruence; try solve [exfalso; eauto].
 
   Ltac close :=
     auto;
-    try solve [usolve | intros [|?]; usolve | eauto 7
+    try solve [usolve | intros [|?]; usolve | intros [|?]; cbn; solve [auto] | eauto 7
               | right; eexists; split; [reflexivity | usolve]].
 
   Ltac simp Hc Hm Hs Hd :=
     rewrite ?Hc, ?Hm, ?Hs, ?Hd; cbn; unfold due_on_error;
-    repeat (rw_st; cbn; rewrite ?Nat.eqb_refl; cbn).
+    repeat (rw_st; cbn; rewrite ?Nat.eqb_refl, ?upd_same; cbn).
 
   (** run the handler of input [i]; [Ein], [Eou] are the values of the two cells *)
   Ltac run_in c i Hdead Hdel Ein Eou :=
@@ -249,7 +295,8 @@ Section FlattenInv.
 
   Ltac call_ok Hm :=
     rewrite settle_call in Hm
-      by (cbn; unfold due_on_error; repeat (rw_st; cbn; rewrite ?Nat.eqb_refl; cbn); reflexivity).
+      by (cbn; unfold due_on_error;
+          repeat (rw_st; cbn; rewrite ?Nat.eqb_refl, ?upd_same; cbn); reflexivity).
 
   Local Hint Resolve AllDone_cons AllDone_nil : core.
 
@@ -295,15 +342,15 @@ Section FlattenInv.
     all: assert (Honly : forall i, us (ms c) (S i) = ULive -> i = k)
         by (intros i Hi; apply Hsw in Hi; congruence).
     all: destruct u as [|e|].
-    all: try (run_in c (IUp 0 UP) Hdead Hdel Ein Eou; call_ok Hm;
-        constructor; simp Hc Hm Hs Hd; close;
-        apply PhLive; simp Hc Hm Hs Hd; close).
-    all: try (run_in c (IUp 0 (UE e)) Hdead Hdel Ein Eou; call_ok Hm;
-        constructor; simp Hc Hm Hs Hd; close;
-        apply PhDisp with (j := S k) (rest := stack c); simp Hc Hm Hs Hd; close).
-    all: try (run_in c (IUp 0 UT) Hdead Hdel Ein Eou; call_ok Hm;
-        constructor; simp Hc Hm Hs Hd; close;
-        apply PhDisp with (j := S k) (rest := stack c); simp Hc Hm Hs Hd; close).
+    1,4: run_in c (IUp 0 UP) Hdead Hdel Ein Eou; call_ok Hm;
+        (constructor; simp Hc Hm Hs Hd; close);
+        apply PhLive; simp Hc Hm Hs Hd; close.
+    1,3: run_in c (IUp 0 (UE e)) Hdead Hdel Ein Eou; call_ok Hm;
+        (constructor; simp Hc Hm Hs Hd; close);
+        apply PhDisp with (j := S k) (rest := stack c); simp Hc Hm Hs Hd; close.
+    all: run_in c (IUp 0 UT) Hdead Hdel Ein Eou; call_ok Hm;
+        (constructor; simp Hc Hm Hs Hd; close);
+        apply PhDisp with (j := S k) (rest := stack c); simp Hc Hm Hs Hd; close.
   Qed.
 
   Lemma inv_dn (c : cfg o) i d :
@@ -312,22 +359,104 @@ Section FlattenInv.
     intros [Hv Hdead Hsko Htask Hsw Hph] He.
     pose proof (enabled_deliverable _ _ _ _ He) as Hdel.
     destruct d as [|v|e|].
-    - (* a greeting *)
+    1: { (* a greeting *)
       destruct (en_dn_h _ _ He) as (Hsub & f & rest & Hst).
-      Time dph Hph. all: Time try congruence. all: Time try (exfalso; eapply Hns'; eauto; fail).
-      + rewrite Hun in Hsub. discriminate.
+      dph Hph; try congruence; try (exfalso; eapply Hns'; eauto; fail).
       + (* the outer greets *)
         rewrite Hst in Hst'. inversion Hst'; subst i f rest. clear Hst'.
-        Time run_in c (IDn 0 DH) Hdead Hdel Hin Hou. Time call_ok Hm.
-        Time constructor; simp Hc Hm Hs Hd. Show. all: admit. 
+        run_in c (IDn 0 DH) Hdead Hdel Hin Hou. call_ok Hm.
+        constructor; simp Hc Hm Hs Hd; close.
+        apply PhLive; simp Hc Hm Hs Hd; close.
+        rewrite Hst. auto.
       + (* the new inner greets: store its talkback and pull it *)
         rewrite Hst in Hst'. inversion Hst'; subst i f rest. clear Hst'.
-        destruct (fl_inner (cst c)) eqn:Ein.
-        all: run_in c (IDn (S k0) DH) Hdead Hdel Ein Hou; call_ok Hm.
-        all: constructor; simp Hc Hm Hs Hd; close.
-        all: apply PhLive; simp Hc Hm Hs Hd; close.
-    - Show.
-  Admitted.
+        run_in c (IDn (S k0) DH) Hdead Hdel Hou Hou. call_ok Hm.
+        constructor; simp Hc Hm Hs Hd; close.
+        apply PhLive; simp Hc Hm Hs Hd; close.
+        rewrite Hst. auto. }
+    (* Data, Error, Terminate: the sender is live *)
+    all: match goal with
+         | |- Inv (step _ _ (MIn (IDn _ ?d))) =>
+             destruct (@en_dn c i d ltac:(discriminate) He) as (Htop & Hlv & Hfresh)
+         end.
+    all: dph Hph;
+      try (rewrite Hun in Hlv; discriminate);
+      try (destruct i; [congruence | rewrite Hun in Hlv; discriminate]);
+      try (exfalso; eapply Hnl; eauto; fail);
+      try (exfalso; eapply only_ret; eauto; fail);
+      try (unfold top_peer_is in Htop; rewrite Hst' in Htop; cbn [peer_eqb peer_of] in Htop;
+           apply Nat.eqb_eq in Htop; subst i; congruence).
+    all: destruct i as [|k1].
+    - (* the outer emits an inner source *)
+      destruct Hout as [(Eou & Hus0) | (Eou & Hus0 & Hne)]; [|congruence].
+      specialize (Hfresh v eq_refl eq_refl).
+      destruct Hin as [Ein | (k & Ein & Husk)].
+      + assert (Hnl : forall i, us (ms c) (S i) <> ULive)
+          by (intros i Hi; apply Hsw in Hi; congruence).
+        run_in c (IDn 0 (DD v)) Hdead Hdel Ein Eou. call_ok Hm.
+        constructor; simp Hc Hm Hs Hd; close.
+        apply PhSubI with (k := inner_id v) (rest := stack c); simp Hc Hm Hs Hd; close.
+      + assert (Honly : forall i, us (ms c) (S i) = ULive -> i = k)
+          by (intros i Hi; apply Hsw in Hi; congruence).
+        run_in c (IDn 0 (DD v)) Hdead Hdel Ein Eou. call_ok Hm.
+        constructor; simp Hc Hm Hs Hd; close.
+        apply PhSwitch with (k := inner_id v) (j := S k) (rest := stack c);
+          simp Hc Hm Hs Hd; close.
+    - (* the current inner emits: relay *)
+      pose proof (Hsw _ Hlv) as Ein.
+      run_in c (IDn (S k1) (DD v)) Hdead Hdel Ein Ein. call_ok Hm.
+      constructor; simp Hc Hm Hs Hd; close.
+      apply PhLive; simp Hc Hm Hs Hd; close.
+    - (* the outer fails *)
+      destruct Hout as [(Eou & Hus0) | (Eou & Hus0 & Hne)]; [|congruence].
+      destruct Hin as [Ein | (k & Ein & Husk)].
+      + assert (Hnl : forall i, us (ms c) (S i) <> ULive)
+          by (intros i Hi; apply Hsw in Hi; congruence).
+        run_in c (IDn 0 (DE e)) Hdead Hdel Ein Eou. call_ok Hm.
+        constructor; simp Hc Hm Hs Hd; close.
+        apply PhOver; simp Hc Hm Hs Hd; close.
+      + assert (Honly : forall i, us (ms c) (S i) = ULive -> i = k)
+          by (intros i Hi; apply Hsw in Hi; congruence).
+        run_in c (IDn 0 (DE e)) Hdead Hdel Ein Eou. call_ok Hm.
+        constructor; simp Hc Hm Hs Hd; close.
+        apply PhErr with (e := e) (j := S k) (rest := stack c); simp Hc Hm Hs Hd; close.
+    - (* the current inner fails *)
+      pose proof (Hsw _ Hlv) as Ein.
+      assert (Honly : forall i, us (ms c) (S i) = ULive -> i = k1)
+        by (intros i Hi; apply Hsw in Hi; congruence).
+      destruct Hout as [(Eou & Hus0) | (Eou & Hus0 & Hne)].
+      + run_in c (IDn (S k1) (DE e)) Hdead Hdel Ein Eou. call_ok Hm.
+        constructor; simp Hc Hm Hs Hd; close.
+        apply PhErr with (e := e) (j := 0) (rest := stack c); simp Hc Hm Hs Hd; close.
+      + run_in c (IDn (S k1) (DE e)) Hdead Hdel Ein Eou. call_ok Hm.
+        constructor; simp Hc Hm Hs Hd; close.
+        apply PhOver; simp Hc Hm Hs Hd; close.
+    - (* the outer completes *)
+      destruct Hout as [(Eou & Hus0) | (Eou & Hus0 & Hne)]; [|congruence].
+      destruct Hin as [Ein | (k & Ein & Husk)].
+      + assert (Hnl : forall i, us (ms c) (S i) <> ULive)
+          by (intros i Hi; apply Hsw in Hi; congruence).
+        run_in c (IDn 0 DT) Hdead Hdel Ein Eou. call_ok Hm.
+        constructor; simp Hc Hm Hs Hd; close.
+        apply PhOver; simp Hc Hm Hs Hd; close.
+      + assert (Honly : forall i, us (ms c) (S i) = ULive -> i = k)
+          by (intros i Hi; apply Hsw in Hi; congruence).
+        run_in c (IDn 0 DT) Hdead Hdel Ein Eou.
+        rewrite settle_ret in Hm by (apply quiet; cbn; [rewrite Hsk; discriminate | exact Hdue]).
+        constructor; simp Hc Hm Hs Hd; rewrite ?Ein; close.
+        apply PhLive; simp Hc Hm Hs Hd; rewrite ?Ein; close.
+    - (* the current inner completes *)
+      pose proof (Hsw _ Hlv) as Ein.
+      assert (Honly : forall i, us (ms c) (S i) = ULive -> i = k1)
+        by (intros i Hi; apply Hsw in Hi; congruence).
+      destruct Hout as [(Eou & Hus0) | (Eou & Hus0 & Hne)].
+      + run_in c (IDn (S k1) DT) Hdead Hdel Ein Eou. call_ok Hm.
+        constructor; simp Hc Hm Hs Hd; close.
+        apply PhLive; simp Hc Hm Hs Hd; close.
+      + run_in c (IDn (S k1) DT) Hdead Hdel Ein Eou. call_ok Hm.
+        constructor; simp Hc Hm Hs Hd; close.
+        apply PhOver; simp Hc Hm Hs Hd; close.
+  Qed.
 
   Lemma inv_ret (c : cfg o) : Inv c -> enabled p gfl c MRet = true -> Inv (step p c MRet).
   Proof.
@@ -393,4 +522,234 @@ Section FlattenInv.
         apply PhOver; rewrite ?Hc, ?Hm, ?Hs, ?Hd; cbn; rewrite ?Hsk; auto.
   Qed.
 
+  Lemma inv_step (c : cfg o) m : Inv c -> enabled p gfl c m = true -> Inv (step p c m).
+  Proof.
+    intros HI He. destruct m as [[s aux|s u|i d|s]|].
+    - now apply inv_sub.
+    - now apply inv_up.
+    - now apply inv_dn.
+    - exfalso. destruct HI as [_ _ _ Htask _ _]. unfold enabled in He.
+      repeat (apply andb_prop in He; destruct He as [? He]).
+      cbn in He. now rewrite Htask in He.
+    - now apply inv_ret.
+  Qed.
+
+  Theorem inv_reach (c : cfg o) : reach p gfl c -> Inv c.
+  Proof. induction 1; [apply inv0 | now apply inv_step]. Qed.
+
+  (** ** C11, switch: at every control point at most one inner source can
+      still speak, and it is the one whose talkback is stored *)
+  Theorem switch_one (c : cfg o) j k :
+    reach p gfl c -> us (ms c) (S j) = ULive -> us (ms c) (S k) = ULive ->
+    j = k /\ fl_inner (cst c) = Some (S k).
+  Proof.
+    intros Hr Hj Hk. destruct (inv_reach Hr) as [_ _ _ _ Hsw _].
+    pose proof (Hsw _ Hj) as Ej. pose proof (Hsw _ Hk) as Ek.
+    split; congruence.
+  Qed.
+
+  (** ** C11, completion.  While the sink is live some level can still speak,
+      or the Error that will finish it is on its way: the top activation is
+      the one that told the other level to stop and will deliver the Error
+      next ([FlThenErr]), and nothing but the return of that call is enabled. *)
+  Theorem live_has_source (c : cfg o) :
+    reach p gfl c -> sk (ms c) 0 = SLive ->
+    us (ms c) 0 = ULive \/ (exists k, us (ms c) (S k) = ULive) \/
+    (exists e j rest, stack c = (FlThenErr e, CUp j UT) :: rest /\
+                      err_due (ms c) 0 = Some e /\ us (ms c) j = UStopped).
+  Proof.
+    intros Hr Hlive. destruct (inv_reach Hr) as [_ _ _ _ _ Hph].
+    dph Hph; try congruence; auto.
+    - destruct Hout as [(Eou & Hus0) | (Eou & Hus0 & Hne)]; auto.
+      destruct Hin as [Ein | (k & Ein & Husk)]; [congruence|]. right. left. eauto.
+    - rewrite Hlive in Hsk. discriminate.
+    - right. right. exists e0, j, rest0. auto.
+  Qed.
+
+  (** ** C11, completion, converse: the sink is sent Terminate only when the
+      outer source has completed and no inner source is live *)
+
+  Lemma handle_term i s s' os k :
+    fl_handle i s = (s', os, ACall (CDn 0 DT) k) ->
+    os = [] /\
+    ((i = IDn 0 DT /\ fl_inner s = None) \/
+     (exists j, i = IDn (S j) DT /\ fl_outer s = false)).
+  Proof.
+    destruct s as [ou inn].
+    destruct i as [[|?] ?|[|?] [|?|]|[|?] [|?|?|]|?]; cbn; unfold fl_then_outer; cbn;
+      destruct inn, ou; intros H; inversion H; eauto.
+  Qed.
+
+  Lemma resume_term f s s' os k : fl_resume f s = (s', os, ACall (CDn 0 DT) k) -> False.
+  Proof.
+    destruct s as [ou inn]. destruct f; cbn; unfold fl_then_outer; cbn;
+      try destruct ou; intros H; inversion H.
+  Qed.
+
+  (** once the output is finished nothing but returns can happen *)
+  Lemma finished_only_ret (c : cfg o) inp :
+    Inv c -> sk (ms c) 0 = SFinished -> enabled p gfl c (MIn inp) = true -> False.
+  Proof.
+    intros [Hv Hdead Hsko Htask Hsw Hph] Hfin He.
+    dph Hph; try congruence.
+    destruct inp as [s aux|s u|i d|s].
+    - apply en_sub in He. destruct He as (-> & _ & _ & E). congruence.
+    - apply en_up in He. destruct He as [_ E]. destruct s; [congruence|].
+      rewrite Hsko in E. discriminate.
+    - destruct d as [|v|e|].
+      + apply en_dn_h in He. destruct He as [E _]. now apply Hns' in E.
+      + apply en_dn in He; [|discriminate]. destruct He as (_ & E & _). now apply Hnl in E.
+      + apply en_dn in He; [|discriminate]. destruct He as (_ & E & _). now apply Hnl in E.
+      + apply en_dn in He; [|discriminate]. destruct He as (_ & E & _). now apply Hnl in E.
+    - unfold enabled in He.
+      repeat (apply andb_prop in He; destruct He as [? He]).
+      cbn in He. now rewrite Htask in He.
+  Qed.
+
+  Definition term_sent (c : cfg o) : Prop := In (ECall (CDn 0 DT)) (rtrace c).
+
+  Lemma term_inv (c : cfg o) :
+    reach p gfl c -> term_sent c -> sk (ms c) 0 = SFinished /\ us (ms c) 0 = UEnded.
+  Proof.
+    induction 1 as [|c m Hr IH He]; [intros []|].
+    pose proof (inv_reach Hr) as HI.
+    pose proof (enabled_live _ _ _ _ He) as Hlive.
+    intros Hmem. unfold term_sent in Hmem. destruct m as [inp|].
+    - pose proof (enabled_deliverable _ _ _ _ He) as Hdel.
+      destruct (handle o inp (cst c)) as [[s' os] a] eqn:Hh.
+      rewrite (step_in_rtrace p c inp Hlive Hdel Hh) in Hmem.
+      destruct Hmem as [E | Hmem].
+      + (* the Terminate is sent by this very activation *)
+        destruct a as [| |cl k]; try discriminate. cbn in E. injection E as ->.
+        destruct (step_in p c inp Hlive Hdel Hh) as (_ & _ & Hm & _).
+        destruct HI as [Hv Hdead Hsko Htask Hsw Hph].
+        apply handle_term in Hh. destruct Hh as (-> & [(-> & Ein) | (j1 & -> & Eou)]).
+        * destruct (@en_dn c 0 DT ltac:(discriminate) He) as (Htop & Hlv & _).
+          assert (Hsk : sk (ms c) 0 = SLive).
+          { dph Hph; try congruence; try (exfalso; eapply Hnl; eauto; fail);
+              try (exfalso; eapply only_ret; eauto; fail). }
+          rewrite Hm. unfold ms_settle. cbn [map fold_left mon_event].
+          rewrite add_viols_eq. cbn. rewrite Hsk. cbn. auto.
+        * destruct (@en_dn c (S j1) DT ltac:(discriminate) He) as (Htop & Hlv & _).
+          assert (Hsk : sk (ms c) 0 = SLive /\ us (ms c) 0 = UEnded).
+          { dph Hph; try congruence; try (exfalso; eapply Hnl; eauto; fail);
+              try (rewrite Hun in Hlv; discriminate).
+            - destruct Hout as [(Eou' & Hus0) | (Eou' & Hus0 & Hne)]; [congruence|auto]. }
+          destruct Hsk as [Hsk Hus0].
+          rewrite Hm. unfold ms_settle. cbn [map fold_left mon_event].
+          rewrite add_viols_eq. cbn. rewrite Hsk. cbn. auto.
+      + apply in_app_or in Hmem. destruct Hmem as [Hmem | [E | Hmem]].
+        * apply in_rev, in_map_iff in Hmem. destruct Hmem as (? & ? & _). discriminate.
+        * discriminate.
+        * destruct (IH Hmem) as [Hfin _]. exfalso. eapply finished_only_ret; eauto.
+    - destruct (enabled_ret_stack _ _ _ He) as (k & cl & rest & Hst).
+      destruct (resume o k (cst c)) as [[s' os] a] eqn:Hres.
+      rewrite (step_ret_rtrace p c Hlive Hst Hres) in Hmem.
+      destruct Hmem as [E | Hmem].
+      + destruct a as [| |cl' k']; try discriminate. cbn in E. injection E as ->.
+        exfalso. eapply resume_term; eauto.
+      + apply in_app_or in Hmem. destruct Hmem as [Hmem | [E | Hmem]].
+        * apply in_rev, in_map_iff in Hmem. destruct Hmem as (? & ? & _). discriminate.
+        * discriminate.
+        * destruct (IH Hmem) as [Hfin Hend].
+          destruct HI as [Hv Hdead Hsko Htask Hsw Hph].
+          dph Hph; try congruence.
+          rewrite Hst in Had. apply AllDone_inv in Had. destruct Had as [-> Had].
+          cbn in Hres. injection Hres as <- <- <-.
+          destruct (step_ret p c Hlive Hst eq_refl) as (_ & _ & Hm & _).
+          rewrite Hm. unfold ms_settle. cbn.
+          destruct (tl (cstack (ms c))); rewrite ?add_viols_eq; cbn; auto.
+  Qed.
+
+  Theorem term_only_when_done (c : cfg o) :
+    reach p gfl c -> In (ECall (CDn 0 DT)) (trace c) ->
+    us (ms c) 0 = UEnded /\ forall k, us (ms c) (S k) <> ULive.
+  Proof.
+    intros Hr Hmem. unfold trace in Hmem. apply in_rev in Hmem.
+    destruct (term_inv Hr Hmem) as [Hfin Hend]. split; [exact Hend|].
+    destruct (inv_reach Hr) as [_ _ _ _ _ Hph].
+    dph Hph; try congruence; try (intros k; apply Hnl).
+  Qed.
+
+  (** ** Order: what the sink receives is what the inner sources sent, in
+      arrival order (no invariant needed: the relay arm is unconditional) *)
+  Theorem order (c : cfg o) : reach p gfl c -> data_out 0 (trace c) = inner_data (trace c).
+  Proof.
+    induction 1 as [|c m Hr IH He]; [reflexivity|].
+    pose proof (enabled_live _ _ _ _ He) as Hlive.
+    destruct m as [inp|].
+    - pose proof (enabled_deliverable _ _ _ _ He) as Hdel.
+      destruct (handle o inp (cst c)) as [[s' os] a] eqn:Hh.
+      rewrite (step_in_trace p c inp Hlive Hdel Hh), data_out_app, inner_data_app, IH.
+      f_equal. cbn in Hh. destruct (cst c) as [ou inn].
+      destruct inp as [[|s] aux|[|s] [|e|]|[|i] [|v|e|]|s]; cbn in Hh;
+        unfold fl_then_outer in Hh; cbn in Hh;
+        destruct inn, ou; inversion Hh; subst; reflexivity.
+    - destruct (enabled_ret_stack _ _ _ He) as (k & cl & rest & Hst).
+      destruct (resume o k (cst c)) as [[s' os] a] eqn:Hres.
+      rewrite (step_ret_trace p c Hlive Hst Hres), data_out_app, inner_data_app, IH.
+      f_equal. cbn in Hres. destruct (cst c) as [ou inn].
+      destruct k; cbn in Hres; unfold fl_then_outer in Hres; cbn in Hres;
+        try destruct ou; inversion Hres; subst; reflexivity.
+  Qed.
+
 End FlattenInv.
+
+(** * Exported theorems *)
+
+(** C01-C05, C17: no protocol violation and no panic in any reachable configuration *)
+Theorem flatten_safe p :
+  nsinks p = 1 -> resub p = false -> no_nest p = false -> c14 p = false -> late_ok p = false ->
+  forall c : cfg flatten_op, reach p g_flatten c -> viols (ms c) = [] /\ dead c = false.
+Proof.
+  intros H1 H2 H3 H4 H5 c Hr. destruct (inv_reach H1 H2 H3 H4 H5 Hr). split; assumption.
+Qed.
+Print Assumptions flatten_safe.
+
+(** C11: only the latest inner speaks.  At every control point at most one
+    inner source is live, and it is the one whose talkback is stored. *)
+Theorem flatten_switch p :
+  nsinks p = 1 -> resub p = false -> no_nest p = false -> c14 p = false -> late_ok p = false ->
+  forall (c : cfg flatten_op) j k, reach p g_flatten c ->
+    us (ms c) (S j) = ULive -> us (ms c) (S k) = ULive ->
+    j = k /\ fl_inner (cst c) = Some (S k).
+Proof.
+  intros H1 H2 H3 H4 H5 c j k Hr. exact (switch_one H1 H2 H3 H4 H5 j k Hr).
+Qed.
+Print Assumptions flatten_switch.
+
+(** C11: completion.
+    (1) While the sink is live, the outer is live, or some inner is live, or
+        the top activation is the one that has just told the other level to
+        stop and delivers the pending Error to the sink as soon as that call
+        returns (nothing but this return is enabled then).
+    (2) At a quiescent point the third case is impossible.
+    (3) Conversely the sink is sent Terminate only when the outer source has
+        completed by itself and no inner source is live. *)
+Theorem flatten_completes p :
+  nsinks p = 1 -> resub p = false -> no_nest p = false -> c14 p = false -> late_ok p = false ->
+  forall c : cfg flatten_op, reach p g_flatten c ->
+    (sk (ms c) 0 = SLive ->
+     us (ms c) 0 = ULive \/ (exists k, us (ms c) (S k) = ULive) \/
+     (exists e j rest, stack c = (FlThenErr e, CUp j UT) :: rest /\
+                       err_due (ms c) 0 = Some e /\ us (ms c) j = UStopped)) /\
+    (sk (ms c) 0 = SLive -> stack c = [] ->
+     us (ms c) 0 = ULive \/ exists k, us (ms c) (S k) = ULive) /\
+    (In (ECall (CDn 0 DT)) (trace c) ->
+     us (ms c) 0 = UEnded /\ forall k, us (ms c) (S k) <> ULive).
+Proof.
+  intros H1 H2 H3 H4 H5 c Hr. split; [|split].
+  - exact (live_has_source H1 H2 H3 H4 H5 Hr).
+  - intros Hlive Hst.
+    destruct (live_has_source H1 H2 H3 H4 H5 Hr Hlive) as [H|[H|(e & j & rest & E & _)]]; auto.
+    congruence.
+  - exact (term_only_when_done H1 H2 H3 H4 H5 Hr).
+Qed.
+Print Assumptions flatten_completes.
+
+(** the sink receives exactly the payloads of the inner sources, in arrival order *)
+Theorem flatten_order p :
+  forall c : cfg flatten_op, reach p g_flatten c ->
+    data_out 0 (trace c) = inner_data (trace c).
+Proof. intros c Hr. exact (order Hr). Qed.
+Print Assumptions flatten_order.
